@@ -27,7 +27,9 @@ def enc(s):
 THEOREMS = ["C14_quote_lex_roundtrip", "C14_strlit_roundtrip", "C14_format_table_roundtrip", "C14_strip_lex",
             "C14_decider_sound", "C14_visitor_sound", "C14_wf_table", "C14_main", "C14_main_cases", "C14_emits",
             "C14_every_piece_reads_back", "C14_schema_qualifies_every_table", "C14_inner_sql_sound", "C14_plan_carries_names", "C14_op_main", "C14_corr_transfers",
+            "C14_quoted_name_roundtrip", "C14_forced_flags", "C14_sa_ok_trivial",
             "C14_refuted_percent", "C14_refuted_tab", "C14_refuted_trailing_newline",
+            "C14_main_strict", "C14_outside_forced_unquoted", "C14_outside_sa_dotted_schema",
             "C14_old_oracle_comment_rejected", "C14_old_mssql_literal_rejected"]
 TRUSTED = [
     "SQLAlchemy IdentifierPreparer (quote, _requires_quotes, quote_identifier, _escape_identifier, reserved_words, "
@@ -44,16 +46,31 @@ TRUSTED = [
     "Python str.isspace()/str.strip(), str.split('.'), str.replace are modelled (space set compared exhaustively per run)",
 ]
 ASSUME = [
-    "names are plain str (no quoted_name with a forced quote flag; the column of the mssql _ExecDrop*Constraint constructs "
+    "names are plain str or quoted_name(.., quote=None/True/False) (the column of the mssql _ExecDrop*Constraint constructs "
     "given as str, not as a table-bound Column object - see finding C14-mssql-drop-constraint-bound-column), non-empty, "
-    "and each dotted schema part is non-empty",
+    "and each dotted part of a plain-str schema is non-empty; a quoted_name schema is one identifier (quote_dotted does not "
+    "split it)",
+    "quoted_name(.., quote=False) is emitted raw: inside the theorem class only for names that need no quotes; for names that "
+    "need them the statement does not read back as the name (C14_outside_forced_unquoted) - the caller's explicit opt-out, "
+    "which the property (quantifying over identifier strings) does not judge: C14_holds is vacuous there, the decider "
+    "answers true, the model and the exact comparison still cover the class",
+    "MySQL/MariaDB DROP CHECK / DROP CONSTRAINT wrapper: a plain dotted schema is quoted by SQLAlchemy's format_table as ONE "
+    "identifier whereas alembic's own helpers emit the chain (C14_outside_sa_dotted_schema); MySQL has no three-part names "
+    "and the property does not fix which reading is expected, so this class too is compared exactly but not judged; "
+    "constraint names within the dialect's length limit; the FK / PK / "
+    "UNIQUE branch delegates to SQLAlchemy's visit_drop_constraint and is not modelled",
     "theorem class env_ok: no name contains '%' on postgresql/mysql, a tab, or ends in a newline (the three classes are "
     "refuted by C14_refuted_* and reported as findings); outside the class the exact comparison and the decider still run",
     "operation level: server defaults are plain strings (no Identity/Computed), types without DateTime affinity (MySQL's "
     "functional-default CHANGE branch off) and without type-bound constraints, columns added without constraints/comments; "
-    "create_table_comment/drop_table_comment/create_column_comment use SQLAlchemy's own constructs and are not modelled",
-    "constructs compiled entirely by SQLAlchemy (CreateTable, CreateIndex, AddConstraint, DropConstraint incl. alembic's "
-    "MySQL DROP CHECK wrapper, comments via SetTableComment) and the PostgreSQL alter-identity SET loop are not modelled",
+    "Identity server defaults are exercised at construct level only (IdentityColumnDefault drop / add / alter)",
+    "constructs compiled entirely by SQLAlchemy (CreateTable, CreateIndex, AddConstraint, DropConstraint outside "
+    "mysql/mariadb) are not modelled; SetTableComment / DropTableComment / SetColumnComment (op.create_table_comment, "
+    "op.drop_table_comment, op.add_column of a commented Column) are modelled at the dispatch level only: which construct "
+    "for which table / schema / column is handed to _exec and what _exec writes; their text is one opaque token and no "
+    "identifier claim is made about it (on mssql without a schema SQLAlchemy itself raises offline: left out)",
+    "alembic's own ColumnComment construct is only ever built by DefaultImpl.alter_column(comment=...): covered by the "
+    "operation stream on every dialect (postgresql/oracle visitors, mysql/mariadb through MODIFY/CHANGE)",
 ]
 RULE = ("every (dialect, construct incl. every combination of its boolean options) of the visitor table x schema in {None, "
         "plain, needs-quoting, dotted} x identifier classes {plain, reserved word, MixedCase, space, the dialect's quote "
@@ -72,7 +89,11 @@ RULE = ("every (dialect, construct incl. every combination of its boolean option
         "x dialect x schema {None, plain, needs-quoting, dotted, + extra forms} x identifier-class pairs; compared exactly: "
         "the sequence of constructs handed to _exec, the table/column/schema/new-name attributes each carries, and each "
         "emitted text; decided: every emitted statement reads back with the names and schema of the OPERATION. "
-        "Names of the three known deviation classes are generated in the main stream "
+        "DEPTH: MariaDB is a sixth dialect in every stream; quoted_name(.., quote=None/True/False) objects in every name "
+        "position (direct, operation and quote() streams); PostgreSQL alter-identity with six (existing, new) Identity pairs "
+        "giving 0-5 SET clauses; MySQL/MariaDB DROP CHECK / DROP CONSTRAINT and the NotImplementedError branch; "
+        "op.create_table_comment / drop_table_comment / add_column(commented Column). "
+        "Names of the known deviation classes are generated in the main stream "
         "only once their finding ids are registered in known_findings.json (always in the search stream).")
 EXHAUSTIVE = {"quick": False, "thorough": False}
 CASE_TIMEOUT = 60
@@ -98,37 +119,64 @@ class HarnessError(Exception):
     pass
 
 
-DIALECTS = ["sqlite", "postgresql", "mysql", "mssql", "oracle"]
-COQ_DIALECT = {"sqlite": "Sqlite", "postgresql": "Postgresql", "mysql": "Mysql", "mssql": "Mssql", "oracle": "Oracle"}
-QUOTE_CHAR = {"sqlite": '"', "postgresql": '"', "mysql": "`", "mssql": "]", "oracle": '"'}
+DIALECTS = ["sqlite", "postgresql", "mysql", "mssql", "oracle", "mariadb"]
+COQ_DIALECT = {"sqlite": "Sqlite", "postgresql": "Postgresql", "mysql": "Mysql", "mssql": "Mssql", "oracle": "Oracle",
+               "mariadb": "Mariadb"}
+QUOTE_CHAR = {"sqlite": '"', "postgresql": '"', "mysql": "`", "mssql": "]", "oracle": '"', "mariadb": "`"}
 
 # construct name -> number of boolean flags
 CONSTRUCTS = {
     "RenameTable": 0, "AddColumn": 1, "DropColumn": 0, "ColumnNullable": 1, "ColumnType": 0, "ColumnName": 0,
     "ColumnDefault": 1, "ComputedDefault": 0, "IdentityDrop": 0, "IdentityAdd": 0, "ColumnComment": 1,
     "PgColumnType": 1, "MysqlAlterDefault": 1, "MysqlModify": 4, "MysqlChange": 4, "MssqlDropConstraint": 0,
-    "MssqlDropFK": 0,
+    "MssqlDropFK": 0, "IdentityAlter": 0, "MysqlDropCheck": 0, "MysqlDropGeneric": 0,
 }
+MYSQL_FAMILY = ("mysql", "mariadb")
+# SQLAlchemy's DropConstraint is alembic's business only on mysql/mariadb; elsewhere SQLAlchemy compiles it itself
+MYSQL_ONLY_GENERATED = ("MysqlDropCheck", "MysqlDropGeneric")
 # (dialect, construct) pairs for which alembic has a visitor that emits SQL (the others must raise)
-NATIVE_ONLY = {"PgColumnType": ["postgresql"], "MysqlAlterDefault": ["mysql"], "MysqlModify": ["mysql"],
-               "MysqlChange": ["mysql"], "MssqlDropConstraint": ["mssql"], "MssqlDropFK": ["mssql"],
+NATIVE_ONLY = {"PgColumnType": ["postgresql"], "MysqlAlterDefault": MYSQL_FAMILY, "MysqlModify": MYSQL_FAMILY,
+               "MysqlChange": MYSQL_FAMILY, "MssqlDropConstraint": ["mssql"], "MssqlDropFK": ["mssql"],
+               "IdentityAlter": ["postgresql", "oracle"], "MysqlDropCheck": MYSQL_FAMILY, "MysqlDropGeneric": [],
                "ColumnComment": ["postgresql", "oracle"], "IdentityDrop": ["postgresql", "oracle"],
                "IdentityAdd": ["postgresql", "oracle"], "ComputedDefault": []}
 MYSQL_RAISES = {"ColumnNullable", "ColumnType", "ColumnName", "ColumnDefault"}
 
 FINDING_IDS = {"pct": "C14-percent-doubled-in-identifier", "tab": "C14-tab-in-identifier-replaced-offline",
                "nl": "C14-trailing-newline-unquoted"}
+# two classes the property does not judge (decider silent, exact comparison on): always generated in the main stream
+UNJUDGED = {"unq": True, "sadot": True}
+PCT_DIALECTS = ("postgresql", "mysql", "mariadb")
+QFLAG = {"plain": "Plain", "none": "QNone", "true": "QTrue", "false": "QFalse", None: "Plain"}
+SLOTS = ("schema", "table", "newtable", "column", "newcolumn")
+
+
+def nm(h, slot):
+    """the name object the operation is called with: a plain str, or a quoted_name carrying a quote flag"""
+    from sqlalchemy.sql.elements import quoted_name
+    v = h[slot]
+    f = (h.get("flags") or {}).get(slot, "plain")
+    if v is None or f in ("plain", None):
+        return v
+    return quoted_name(v, {"none": None, "true": True, "false": False}[f])
+
+
+def coq_flags(h):
+    fl = h.get("flags") or {}
+    return "(mkFlags %s)" % " ".join(QFLAG[fl.get(k, "plain")] for k in SLOTS)
 
 
 def emits(dialect, cname):
     if cname in NATIVE_ONLY:
         return dialect in NATIVE_ONLY[cname]
-    if dialect == "mysql" and cname in MYSQL_RAISES:
+    if dialect in MYSQL_FAMILY and cname in MYSQL_RAISES:
         return False
     return True
 
 
 def all_flag_sets(cname):
+    if cname == "IdentityAlter":
+        return [[k] for k in range(len(IDENT_PAIRS))]
     n = CONSTRUCTS[cname]
     return [[bool(m >> k & 1) for k in range(n)] for m in range(1 << n)]
 
@@ -156,6 +204,15 @@ TYPES = {"int": lambda sa: sa.Integer(), "str5": lambda sa: sa.String(5), "num":
 DEFAULTS = {"five": "5", "lit": "'x y'", "fn": "now()"}
 COMMENTS = {"plain": "plain comment", "quote": "c'm", "bs": "back\\slash it's"}
 USINGS = {"cast": "c::integer", "expr": "(c || 'x y')::text"}
+# (existing identity, new identity) as keyword dicts
+IDENT_PAIRS = [
+    (dict(always=False), dict(always=True)),
+    (dict(always=True, start=1), dict(always=False, start=5)),
+    (dict(start=1, increment=1), dict(start=5, increment=2)),
+    (dict(always=False, start=1), dict(always=True, start=7, increment=3, cycle=True, maxvalue=99)),
+    (dict(start=3), dict(start=3)),
+    (dict(always=True, cache=5), dict(always=True, cache=9, minvalue=2)),
+]
 
 
 def build(h):
@@ -166,7 +223,8 @@ def build(h):
     c, buf, ddlc = _ctx(h["dialect"])
     dialect = c.dialect
     name, flags = h["construct"][0], h["construct"][1:]
-    t, nt, col, ncol, sch = h["table"], h["newtable"], h["column"], h["newcolumn"], h["schema"]
+    t, nt, col, ncol, sch = nm(h, "table"), nm(h, "newtable"), nm(h, "column"), nm(h, "newcolumn"), nm(h, "schema")
+    steps = None
     type_ = TYPES[h.get("type", "int")](sa)
     deflt = DEFAULTS[h.get("default", "five")]
     comment = COMMENTS[h.get("comment", "plain")]
@@ -242,9 +300,31 @@ def build(h):
         opq = [tp]
     elif name == "MssqlDropFK":
         el = mssql._ExecDropFKConstraint(t, col, sch)
+    elif name == "IdentityAlter":
+        old, new = (sa.Identity(**kw) for kw in IDENT_PAIRS[flags[0]])
+        el = base.IdentityColumnDefault(t, col, new, c.impl, schema=sch, existing_server_default=old)
+        steps = []
+        if h["dialect"] == "postgresql":
+            diff, _, _ = c.impl._compare_identity_default(new, old)
+            for attr in sorted(diff):
+                if attr == "always":
+                    steps.append(bool(new.always))
+                else:
+                    steps.append(None)
+                    opq.append(ddlc.get_identity_options(sa.Identity(**{attr: getattr(new, attr)})))
+        elif native:
+            opq = [ddlc.visit_identity_column(new)]
+    elif name in ("MysqlDropCheck", "MysqlDropGeneric"):
+        tbl = sa.Table(t, sa.MetaData(), sa.Column("x", sa.Integer), schema=sch)
+        ck = sa.CheckConstraint(sa.text("x > 0"), name=col) if name == "MysqlDropCheck" else sa.schema.Constraint(name=col)
+        if name == "MysqlDropCheck":
+            tbl.append_constraint(ck)
+        else:
+            ck._set_parent_with_dispatch(tbl)
+        el = sa.schema.DropConstraint(ck)
     else:
         raise HarnessError("unknown construct " + name)
-    return el, opq
+    return el, opq, steps
 
 
 def errname(e):
@@ -263,8 +343,12 @@ def errname(e):
     return "EOther"
 
 
-def coq_construct(cn):
+def coq_construct(cn, steps=None):
     name, flags = cn[0], cn[1:]
+    if name == "Foreign":
+        return "(CForeign %s)" % flags[0]
+    if name == "IdentityAlter":
+        return "(CIdentityAlter %s)" % cf.lst("None" if x is None else "(Some %s)" % cf.boolean(x) for x in (steps or []))
     if not flags:
         return "C" + name
     return "(C%s %s)" % (name, " ".join(cf.boolean(b) for b in flags))
@@ -272,7 +356,7 @@ def coq_construct(cn):
 
 def run_stmt(h):
     c, buf, _ = _ctx(h["dialect"])
-    el, opq = build(h)
+    el, opq, steps = build(h)
     try:
         compiled = str(el.compile(dialect=c.dialect))
         buf.seek(0)
@@ -287,9 +371,9 @@ def run_stmt(h):
     except Exception as e:  # raised by alembic / SQLAlchemy: part of the observable, by class
         out = {"err": errname(e), "exc": type(e).__name__}
         cout = "ObsStmt (OutErr %s)" % out["err"]
-    env = "(mkEnv %s %s %s %s %s %s)" % (cf.opt(h["schema"], enc), enc(h["table"]), enc(h["newtable"]),
-                                       enc(h["column"]), enc(h["newcolumn"]), cf.lst(enc(o) for o in opq))
-    cin = "CaseStmt %s %s %s" % (COQ_DIALECT[h["dialect"]], coq_construct(h["construct"]), env)
+    env = "(mkEnv %s %s %s %s %s %s %s)" % (cf.opt(h["schema"], enc), enc(h["table"]), enc(h["newtable"]),
+                                          enc(h["column"]), enc(h["newcolumn"]), cf.lst(enc(o) for o in opq), coq_flags(h))
+    cin = "CaseStmt %s %s %s" % (COQ_DIALECT[h["dialect"]], coq_construct(h["construct"], steps), env)
     shape = "stmt-%s-%s-%s" % (h["dialect"], h["construct"][0], "err" if "err" in out else "sql")
     return dict(cin=cin, cout=cout, out=out, nontrivial="err" not in out, shape=shape)
 
@@ -297,11 +381,11 @@ def run_stmt(h):
 def run_quote(h):
     c, _, _ = _ctx(h["dialect"])
     try:
-        r = c.dialect.identifier_preparer.quote(h["s"])
+        r = c.dialect.identifier_preparer.quote(nm(dict(s=h["s"], flags={"s": h.get("flag", "plain")}), "s"))
         out, cout = {"quoted": r}, "ObsQuote (Some %s)" % enc(r)
     except IndexError:
         out, cout = {"err": "EIndex"}, "ObsQuote None"
-    return dict(cin="CaseQuote %s %s" % (COQ_DIALECT[h["dialect"]], enc(h["s"])), cout=cout, out=out,
+    return dict(cin="CaseQuote %s %s %s" % (COQ_DIALECT[h["dialect"]], QFLAG[h.get("flag", "plain")], enc(h["s"])), cout=cout, out=out,
                 nontrivial="quoted" in out and out["quoted"] != h["s"], shape="quote-" + h["dialect"])
 
 
@@ -401,6 +485,14 @@ def describe(el, dialect_name):
     elif T is mssql._ExecDropFKConstraint:
         cn = ["MssqlDropFK"]
         names.update(table=el.tname, column=str(el.colname))
+    elif T in (sa.schema.SetTableComment, sa.schema.DropTableComment, sa.schema.SetColumnComment):
+        # compiled entirely by SQLAlchemy: the text is one opaque token; what alembic decides is which table / schema /
+        # column the construct is about
+        cn = ["Foreign", {sa.schema.SetTableComment: "FSetTableComment", sa.schema.DropTableComment: "FDropTableComment",
+                          sa.schema.SetColumnComment: "FSetColumnComment"}[T]]
+        tbl = el.element.table if T is sa.schema.SetColumnComment else el.element
+        names.update(table=tbl.name, schema=tbl.schema, column=el.element.name if T is sa.schema.SetColumnComment else "")
+        opq = [str(el.compile(dialect=dialect))]
     else:
         raise HarnessError("construct outside the modelled set handed to _exec: %r" % T)
     return cn, names, opq
@@ -418,13 +510,14 @@ def coq_op(o):
         return "(OpAlterColumn %s)" % coq_req(o[1])
     if o[0] == "drop":
         return "(OpDropColumn %s %s %s)" % tuple(cf.boolean(b) for b in o[1:])
-    return {"rename_table": "OpRenameTable", "add": "OpAddColumn"}[o[0]]
+    return {"rename_table": "OpRenameTable", "add": "OpAddColumn", "table_comment": "OpCreateTableComment",
+            "drop_table_comment": "OpDropTableComment", "add_comment": "OpAddColumnComment"}[o[0]]
 
 
 def call_op(op, h):
     """the real Operations call"""
     import sqlalchemy as sa
-    t, nt, col, ncol, sch = h["table"], h["newtable"], h["column"], h["newcolumn"], h["schema"]
+    t, nt, col, ncol, sch = nm(h, "table"), nm(h, "newtable"), nm(h, "column"), nm(h, "newcolumn"), nm(h, "schema")
     o = h["op"]
     if o[0] == "rename_table":
         op.rename_table(t, nt, schema=sch)
@@ -432,6 +525,12 @@ def call_op(op, h):
         op.add_column(t, sa.Column(col, TYPES[h["type"]](sa)), schema=sch)
     elif o[0] == "drop":
         op.drop_column(t, col, schema=sch, mssql_drop_default=o[1], mssql_drop_check=o[2], mssql_drop_foreign_key=o[3])
+    elif o[0] == "table_comment":
+        op.create_table_comment(t, COMMENTS[h["comment"]], existing_comment=None, schema=sch)
+    elif o[0] == "drop_table_comment":
+        op.drop_table_comment(t, existing_comment=COMMENTS[h["comment"]], schema=sch)
+    elif o[0] == "add_comment":
+        op.add_column(t, sa.Column(col, TYPES[h["type"]](sa), comment=COMMENTS[h["comment"]]), schema=sch)
     else:
         r = o[1]
         kw = dict(schema=sch)
@@ -511,9 +610,9 @@ def run_op(h):
         outs.append("(mkO %s %s %s %s %s %s %s)" % (coq_construct(r["construct"]), enc(r["table"]), enc(r["column"]),
                                                   cf.opt(r["schema"], enc), enc(r["newname"]), enc(r["newtable"]), o))
     cout = "ObsOp %s %s" % (cf.lst(outs), cf.opt(raised))
-    cin = "CaseOp %s %s (mkNames %s %s %s %s %s) %s" % (
+    cin = "CaseOp %s %s (mkNames %s %s %s %s %s %s) %s" % (
         COQ_DIALECT[h["dialect"]], coq_op(h["op"]), cf.opt(h["schema"], enc), enc(h["table"]), enc(h["newtable"]),
-        enc(h["column"]), enc(h["newcolumn"]), cf.lst(cf.lst(enc(x) for x in r["opq"]) for r in steps))
+        enc(h["column"]), enc(h["newcolumn"]), coq_flags(h), cf.lst(cf.lst(enc(x) for x in r["opq"]) for r in steps))
     out = {"steps": [{k: v for k, v in r.items() if k != "opq"} for r in steps], "raised": raised}
     emitted = sum(1 for r in steps if "err" not in r)
     return dict(cin=cin, cout=cout, out=out, nontrivial=emitted > 0,
@@ -562,11 +661,37 @@ def variant(rnd):
                 comment=rnd.choice(sorted(COMMENTS)), using=rnd.choice(sorted(USINGS)))
 
 
-def stmt(dialect, cn, schema, t, c, rnd, nt=None, nc=None):
+def stmt(dialect, cn, schema, t, c, rnd, nt=None, nc=None, flags=None):
     h = dict(kind="stmt", dialect=dialect, construct=cn, schema=schema, table=t, column=c,
              newtable=(t + "_n") if nt is None else nt, newcolumn=(c + "_n") if nc is None else nc)
+    if flags:
+        h["flags"] = flags
     h.update(variant(rnd))
     return h
+
+
+def flag_sets(allow_unq):
+    """quoted_name flag assignments: forced quote everywhere, mixed, quote=None objects, forced unquoted"""
+    out = [dict.fromkeys(SLOTS, "true"), dict.fromkeys(SLOTS, "none"),
+           dict(schema="true", table="none", newtable="true", column="true", newcolumn="none"),
+           dict(schema="plain", table="true", newtable="plain", column="plain", newcolumn="true")]
+    return out
+
+
+def flagged(d, cn, rnd, classes, allow):
+    """the same construct with quoted_name objects in the name positions"""
+    for fl in flag_sets(allow["unq"]):
+        yield stmt(d, cn, rnd.choice(["sch", "My Schema", "db.sch", None]), classes["space"], classes["reserved"], rnd, flags=fl)
+        yield stmt(d, cn, "My.Sch x", "tbl", classes["quotechar"], rnd, flags=fl)
+    # quote=False on names that need no quotes is harmless ...
+    yield stmt(d, cn, "sch", "tbl", "col", rnd, flags=dict.fromkeys(SLOTS, "true"))
+    yield stmt(d, cn, "sch", "tbl", "col", rnd, flags=dict.fromkeys(SLOTS, "false"))
+    yield stmt(d, cn, None, "a$b", "c_1", rnd, flags=dict(table="false", column="false"))
+    if allow["unq"]:
+        # ... on names that need them it emits the raw text (known deviation class)
+        yield stmt(d, cn, "My Schema", classes["space"], classes["mixed"], rnd, flags=dict.fromkeys(SLOTS, "false"))
+        yield stmt(d, cn, "sch", classes["reserved"], "col", rnd, flags=dict(table="false"))
+        yield stmt(d, cn, "db.sch", "tbl", "col", rnd, flags=dict(schema="false"))
 
 
 ALPHABET = list("abcxyzABZ019_$ .'\"`[];-%\n\t\\") + ["é", "ı", "ſ", "K", "İ", " ", "中"]
@@ -588,6 +713,7 @@ def rand_name(rnd, allow):
 def gen(tier, seed, with_findings):
     rnd = random.Random(seed * 7919 + 14)
     allow = {k: (FINDING_IDS[k] in with_findings) for k in FINDING_IDS}
+    allow.update(UNJUDGED)
     for d in DIALECTS:
         yield dict(kind="params", dialect=d)
         classes = name_classes(d)
@@ -597,6 +723,9 @@ def gen(tier, seed, with_findings):
                 extra["finding_" + k] = v
         for cname in CONSTRUCTS:
             native = emits(d, cname)
+            if cname in MYSQL_ONLY_GENERATED and d not in MYSQL_FAMILY:
+                continue
+            no_dots = cname == "MysqlDropCheck" and not allow["sadot"]
             for fl in all_flag_sets(cname):
                 cn = [cname] + fl
                 if not native:
@@ -605,25 +734,41 @@ def gen(tier, seed, with_findings):
                     yield stmt(d, cn, "My Schema", "it's", "select", rnd)
                     continue
                 for sk, sv in SCHEMAS.items():
-                    if tier == "quick":
-                        combos = [(a, "plain") for a in classes] + [("plain", b) for b in classes] + [(a, a) for a in classes]
-                    else:
+                    if no_dots and sv and "." in sv:
+                        continue
+                    if tier != "quick":
                         combos = [(a, b) for a in classes for b in classes]
+                    elif len(all_flag_sets(cname)) > 2 or (d == "mariadb" and cname != "MysqlDropCheck"):
+                        # many option combinations (or MariaDB, whose visitors are MySQL's): fewer name pairs each
+                        combos = [("plain", "plain"), ("reserved", "mixed"), ("space", "quotechar"), ("squote", "nonascii"),
+                                  ("quotechar", "squote"), ("digit", "dollar"), ("mixed", "space"), ("nonascii", "reserved")]
+                    else:
+                        combos = [(a, "plain") for a in classes] + [("plain", b) for b in classes] + [(a, a) for a in classes]
                     for a, b in sorted(set(combos)):
                         yield stmt(d, cn, sv, classes[a], classes[b], rnd)
                 # further schema forms and further name classes, one position at a time
-                if CONSTRUCTS[cname] <= 1 or tier != "quick" or rnd.random() < 0.15:
+                if (CONSTRUCTS[cname] <= 1 and not (tier == "quick" and d == "mariadb" and cname != "MysqlDropCheck")
+                        and not (tier == "quick" and cname == "IdentityAlter" and fl != [1])) \
+                        or tier != "quick" or rnd.random() < 0.15:
+                    for case in flagged(d, cn, rnd, classes, allow):
+                        if not (no_dots and case["schema"] and "." in case["schema"]
+                                and (case.get("flags") or {}).get("schema", "plain") == "plain"):
+                            yield case
                     for sk, sv in EXTRA_SCHEMAS.items():
-                        yield stmt(d, cn, sv, classes["space"], classes["mixed"], rnd)
+                        if not (no_dots and "." in sv):
+                            yield stmt(d, cn, sv, classes["space"], classes["mixed"], rnd)
                     for k, v in extra.items():
-                        yield stmt(d, cn, rnd.choice(list(SCHEMAS.values())), v, "col", rnd)
-                        yield stmt(d, cn, rnd.choice(list(SCHEMAS.values())), "tbl", v, rnd, nt=v, nc=v)
-                        yield stmt(d, cn, v, "tbl", "col", rnd)
+                        nodot = [x for x in SCHEMAS.values() if not (no_dots and x and "." in x)]
+                        yield stmt(d, cn, rnd.choice(nodot), v, "col", rnd)
+                        yield stmt(d, cn, rnd.choice(nodot), "tbl", v, rnd, nt=v, nc=v)
+                        if not (no_dots and "." in v):
+                            yield stmt(d, cn, v, "tbl", "col", rnd)
                     # empty names raise IndexError
                     yield stmt(d, cn, None, "", "col", rnd)
                     if cname != "AddColumn":     # a blank Column name is rejected by SQLAlchemy before any visitor runs
                         yield stmt(d, cn, "sch", "tbl", "", rnd)
-                    yield stmt(d, cn, "a..b", "tbl", "col", rnd)
+                    if not no_dots:
+                        yield stmt(d, cn, "a..b", "tbl", "col", rnd)
                     yield stmt(d, cn, None, "tbl", "col", rnd, nt="", nc="")
         # random names in every position
         nrand = 120 if tier == "quick" else 2500
@@ -631,11 +776,19 @@ def gen(tier, seed, with_findings):
         for _ in range(nrand):
             cn = rnd.choice(natives)
             sch = rnd.choice([None, rand_name(rnd, allow), rand_name(rnd, allow) + "." + rand_name(rnd, allow)])
+            fl = rnd.choice([None, None, {k: rnd.choice(["plain", "none", "true"]) for k in SLOTS}])
+            if cn[0] == "MysqlDropCheck" and not allow["sadot"]:
+                while sch and "." in sch:
+                    sch = rand_name(rnd, allow)
             yield stmt(d, cn, sch, rand_name(rnd, allow), rand_name(rnd, allow), rnd,
-                       nt=rand_name(rnd, allow), nc=rand_name(rnd, allow))
+                       nt=rand_name(rnd, allow), nc=rand_name(rnd, allow), flags=fl)
         # quote() itself
         for v in list(classes.values()) + list(extra.values()) + [""]:
             yield dict(kind="quote", dialect=d, s=v)
+            for f in ("none", "true"):
+                yield dict(kind="quote", dialect=d, s=v, flag=f)
+            if allow["unq"] or not needs_quotes(d, v):
+                yield dict(kind="quote", dialect=d, s=v, flag="false")
         nq = 400 if tier == "quick" else 5000
         for _ in range(nq):
             yield dict(kind="quote", dialect=d, s=rand_name(rnd, allow))
@@ -677,37 +830,59 @@ def rand_req(rnd):
                ex_comment=rnd.random() < 0.3, ex_autoinc=rnd.random() < 0.2, using=rnd.random() < 0.15)
 
 
-def op_case(d, o, schema, t, c, rnd):
+def op_case(d, o, schema, t, c, rnd, flags=None):
     h = dict(kind="op", dialect=d, op=o, schema=schema, table=t, column=c, newtable=t + "_n", newcolumn=c + "_n")
+    if flags:
+        h["flags"] = flags
     h.update(variant(rnd))
     return h
 
 
 def gen_ops(tier, seed, with_findings):
     """operation-level stream: the real Operations API in as_sql mode"""
+    for h in _gen_ops(tier, seed, with_findings):
+        # SQLAlchemy's MSSQL comment constructs read dialect.default_schema_name, which an unconnected (as_sql) dialect
+        # does not have: without a schema they raise inside SQLAlchemy - not alembic's doing, left out
+        if h["dialect"] == "mssql" and h["op"][0] in ("table_comment", "drop_table_comment", "add_comment") and not h["schema"]:
+            continue
+        yield h
+
+
+def _gen_ops(tier, seed, with_findings):
     rnd = random.Random(seed * 104729 + 1414)
     allow = {k: (FINDING_IDS[k] in with_findings) for k in FINDING_IDS}
+    allow.update(UNJUDGED)
     for d in DIALECTS:
         cl = name_classes(d)
         if tier == "quick":
             combos = [("plain", "plain"), ("reserved", "mixed"), ("space", "quotechar"), ("squote", "nonascii"),
-                      ("quotechar", "squote"), ("digit", "dollar")]
+                      ("quotechar", "squote")]
         else:
             combos = [(a, "plain") for a in cl] + [("plain", b) for b in cl] + [(a, a) for a in cl]
         ops = [["alter", r] for r in ALTER_SHAPES]
         ops += [["drop"] + [bool(m >> k & 1) for k in range(3)] for m in (range(8) if d == "mssql" else (0, 7))]
-        ops += [["rename_table"], ["add"]]
-        for o in ops:
+        ops += [["rename_table"], ["add"], ["table_comment"], ["drop_table_comment"], ["add_comment"]]
+        for k, o in enumerate(ops):
             for sv in SCHEMAS.values():
-                for a, b in sorted(set(combos)):
+                for a, b in (sorted(set(combos))[:3] if tier == "quick" and o[0] == "alter" else sorted(set(combos))):
                     yield op_case(d, o, sv, cl[a], cl[b], rnd)
+            if tier == "quick" and o[0] == "alter" and k % 3:
+                continue
             for sv in EXTRA_SCHEMAS.values():
                 yield op_case(d, o, sv, cl["space"], cl["mixed"], rnd)
+            # quoted_name objects travel through the operation into the constructs
+            for fl in flag_sets(allow["unq"])[:3]:
+                yield op_case(d, o, rnd.choice(["My Schema", "db.sch", "sch"]), cl["reserved"], cl["space"], rnd, flags=fl)
+            yield op_case(d, o, "sch", "tbl", "col", rnd, flags=dict.fromkeys(SLOTS, "true"))
+            yield op_case(d, o, "sch", "tbl", "col", rnd, flags=dict.fromkeys(SLOTS, "false"))
+            if allow["unq"]:
+                yield op_case(d, o, "My Schema", cl["space"], cl["mixed"], rnd, flags=dict(schema="false", table="false", column="false"))
         for _ in range(60 if tier == "quick" else 1500):
             sch = rnd.choice([None, rand_name(rnd, allow) or "s", "My Schema", "db.sch"])
             while sch and "" in sch.split("."):
                 sch = rand_name(rnd, allow)
-            o = rnd.choice([["alter", rand_req(rnd)]] * 6 + [["drop"] + [rnd.random() < 0.5 for _ in range(3)], ["rename_table"], ["add"]])
+            o = rnd.choice([["alter", rand_req(rnd)]] * 6 + [["drop"] + [rnd.random() < 0.5 for _ in range(3)], ["rename_table"], ["add"],
+                            ["table_comment"], ["drop_table_comment"], ["add_comment"]])
             yield op_case(d, o, sch, rand_name(rnd, allow), rand_name(rnd, allow), rnd)
 
 
@@ -761,8 +936,60 @@ def op_names(h):
     return names
 
 
+def needs_quotes(dialect, s):
+    """the implementation's own verdict (used for classifying cases only)"""
+    c, _, _ = _ctx(dialect)
+    if s == "":
+        return True          # the empty name cannot be written without quotes at all
+    return bool(c.dialect.identifier_preparer._requires_quotes(s))
+
+
+def flagged_names(h):
+    """(name, flag) of every name the case uses; a plain schema counts part by part, a quoted_name schema as a whole"""
+    if h["kind"] == "quote":
+        return [(h["s"], h.get("flag", "plain"))]
+    fl = h.get("flags") or {}
+    used = op_names_slots(h) if h["kind"] == "op" else stmt_names_slots(h)
+    out = []
+    for slot in used:
+        f = fl.get(slot, "plain")
+        if slot == "schema":
+            if h["schema"]:
+                out += [(p, f) for p in (h["schema"].split(".") if f == "plain" else [h["schema"]])]
+        else:
+            out.append((h[slot], f))
+    return out
+
+
+def stmt_names_slots(h):
+    name = h["construct"][0]
+    slots = ["schema", "table", "newtable" if name == "RenameTable" else "column"]
+    if name in ("ColumnName", "MysqlChange"):
+        slots.append("newcolumn")
+    return slots
+
+
+def op_names_slots(h):
+    o = h["op"]
+    slots = ["schema", "table", "newtable" if o[0] == "rename_table" else "column"]
+    if o[0] == "alter" and o[1]["rename"]:
+        slots.append("newcolumn")
+    return slots
+
+
 def classify(h, out):
     """known deviation classes: names on which SQLAlchemy's quote() does not round-trip, or that _exec rewrites"""
+    if h.get("kind") in ("stmt", "op", "quote"):
+        fn = flagged_names(h)
+        names = [n for n, f in fn]
+        forced = {n for n, f in fn if f == "true"}
+        if h["kind"] != "quote" and any("\t" in n for n in names):
+            return FINDING_IDS["tab"]
+        if any(n.endswith("\n") and n not in forced for n in names):
+            return FINDING_IDS["nl"]
+        if h["dialect"] in PCT_DIALECTS and any("%" in n for n, f in fn if f != "false"):
+            return FINDING_IDS["pct"]
+        return None
     if h.get("kind") == "quote":
         names = [h["s"]]
     elif h.get("kind") == "stmt":
@@ -786,9 +1013,8 @@ _STATS = {}
 def in_class(h):
     if h["kind"] == "params":
         return True
-    names = [h["s"]] if h["kind"] == "quote" else op_names(h) if h["kind"] == "op" else used_names(h)
-    return all(n and "\t" not in n and not n.endswith("\n") and not (h["dialect"] in ("postgresql", "mysql") and "%" in n)
-               for n in names)
+    return all(n and "\t" not in n and not n.endswith("\n") and not (h["dialect"] in PCT_DIALECTS and "%" in n)
+               and not (f == "false" and needs_quotes(h["dialect"], n)) for n, f in flagged_names(h))
 
 
 WITNESSES = {
@@ -798,6 +1024,10 @@ WITNESSES = {
                 newtable="t_new", newcolumn="c_new"),
     "nl": dict(kind="stmt", dialect="postgresql", construct=["DropColumn"], schema=None, table="select\n", column="c",
                newtable="t_new", newcolumn="c_new"),
+    "unq": dict(kind="stmt", dialect="postgresql", construct=["DropColumn"], schema=None, table="my table", column="c",
+                newtable="t_new", newcolumn="c_new", flags={"table": "false"}),
+    "sadot": dict(kind="stmt", dialect="mysql", construct=["MysqlDropCheck"], schema="db.sch", table="t", column="ck",
+                  newtable="t_new", newcolumn="c_new"),
 }
 
 
@@ -818,9 +1048,14 @@ def extra_evidence():
     """measured distribution + the three refutation witnesses replayed on the real code"""
     ev = dict(_STATS)
     wit = {}
+    outside = {}
     for k, h in WITNESSES.items():
         out = run_case(h)["out"]
-        wit[FINDING_IDS[k]] = {"input": h, "impl_output": out}
+        if k in FINDING_IDS:
+            wit[FINDING_IDS[k]] = {"input": h, "impl_output": out}
+        else:
+            outside[k] = {"input": h, "impl_output": out}
+    ev["outside_class_witnesses_on_impl"] = outside
     wit["C14-mssql-drop-constraint-bound-column"] = bound_column_witness()
     ev["finding_witnesses_on_impl"] = wit
     ev["registered_findings"] = sorted(registered_findings())
@@ -831,7 +1066,7 @@ def dump_reserved(path=None):
     """regenerate coq/Model/C14Reserved.v from the installed SQLAlchemy (run by hand when SQLAlchemy is upgraded;
     every check run compares the table with the live preparer through the 'params' cases)"""
     import sqlalchemy
-    lines = ["(* GENERATED from SQLAlchemy %s by harness/props/c14.py:dump_reserved() -- IdentifierPreparer parameters of the five"
+    lines = ["(* GENERATED from SQLAlchemy %s by harness/props/c14.py:dump_reserved() -- IdentifierPreparer parameters of the six"
              % sqlalchemy.__version__,
              "   dialects.  Outside alembic: trusted, and re-checked against the installed SQLAlchemy on every run (kind \"params\"). *)",
              "From Coq Require Import List NArith String.", "From AV Require Import Model.Quote.", "Import ListNotations.",
@@ -857,6 +1092,7 @@ Definition qspec_of (d:dialect) : qspec :=
   | Mysql      => mkQ 96 96 true  reserved_mysql digits_dollar true
   | Mssql      => mkQ 91 93 false reserved_mssql digits_dollar false
   | Oracle     => mkQ 34 34 false reserved_oracle (digits_dollar ++ [95]) false
+  | Mariadb    => mkQ 96 96 true  reserved_mariadb digits_dollar true
   end.
 """)
     txt = "\n".join(lines)
